@@ -58,10 +58,13 @@ def run(ctx):
     if ctx.failures and not ctx.violations:
         if kexe:
             C01.search(ctx, kexe)
+    core.init_contract(ctx, ["wsd_circular_array", "wsd_work_stealing_deque", "fiber_scheduler_wsd"])  # rt/h_init.c: real init on dirty memory
     core.finish(ctx, extra_assumptions=ASSUME)
 
 
 def replay(ctx, payload):
+    if payload.get("harness") == "h_init":
+        return core.replay_init(ctx, payload)
     h = payload.get("harness")
     if h == "kernel":
         return C01.replay(ctx, payload)
